@@ -11,6 +11,7 @@ import (
 	"sort"
 	"strconv"
 	"strings"
+	"time"
 
 	"github.com/tokenized/logger"
 )
@@ -192,4 +193,37 @@ func OpPart(line string) string {
 		return line[:i]
 	}
 	return line
+}
+
+// Patient waiting. The bounds of the harnesses are budgets of time in which the harness itself could
+// run, not of wall-clock time: on a machine that is busy with other work a wait gets longer instead of
+// ending in a spurious "timed out" (which a check would have to report as a violation). Every nap of
+// one millisecond is charged with the time it really took, but with at most maxCharge.
+const maxCharge = 2 * time.Millisecond
+
+// Until waits until cond holds or the budget is used up and reports cond().
+func Until(budget time.Duration, cond func() bool) bool {
+	for budget > 0 {
+		if cond() {
+			return true
+		}
+		t0 := time.Now()
+		time.Sleep(time.Millisecond)
+		el := time.Since(t0)
+		if el > maxCharge {
+			el = maxCharge
+		}
+		budget -= el
+	}
+	return cond()
+}
+
+// After is time.After on the patient clock.
+func After(budget time.Duration) <-chan struct{} {
+	ch := make(chan struct{})
+	go func() {
+		Until(budget, func() bool { return false })
+		close(ch)
+	}()
+	return ch
 }
